@@ -221,6 +221,16 @@ fn same_path_sequence(cfg: &RunCfg) -> Outcome {
         });
         cells.push(format!("#{i}: L={l} M={m}"));
     }
+    // One EINTR on the server side of the socket in a share of the runs. The server may
+    // give up at that point or carry on; whatever it hands to the handler must still be
+    // exactly what was sent, and within the bounds.
+    let total_stream: usize = reqs.iter().map(|r| r.head().len() + r.body().len()).sum();
+    let eintr = gen::ratio(1, 6);
+    if eintr {
+        let at = u64::from(gen::below(total_stream as u32 + 1));
+        with(|w| w.net.knobs.eintr_read_at = Some(at));
+        cells.push(format!("Interrupted read once after {at} stream bytes"));
+    }
     let mut cl = client_for(&reqs, gen::ratio(1, 2), gen::pick(&[Frag::Whole, Frag::Random]));
     cl.slow_read = gen::ratio(1, 4);
     eng.add_client(cl);
@@ -240,7 +250,23 @@ fn same_path_sequence(cfg: &RunCfg) -> Outcome {
     let exp = model_conn(&reqs, &scfg);
     let calls = handler::calls();
     let at_eof = with(|w| w.client_at_eof(conn));
-    if let Some(mut v) = check_conn("C09", &cell, &exp, &calls, &cl.received, at_eof) {
+    let eintr_fired = eintr && with(|w| w.counters.get("fault.server_read_error").copied().unwrap_or(0) > 0);
+    if eintr_fired {
+        gen::count("probe.eintr_during_upload_sequence");
+        // the exchange may stop at the fault: what did happen must be a prefix of the model
+        for (i, c) in calls.iter().enumerate() {
+            match exp.calls.get(i) {
+                Some(e) if e.path == c.path && e.pending == c.pending => {
+                    if let (Some(want), Some(got)) = (&e.body, &c.body) {
+                        if want != got {
+                            return Outcome::fail("C09.body_intact", format!("{cell}: handler run #{i} got a body of {} bytes, {} were sent for that request", got.len(), want.len()));
+                        }
+                    }
+                }
+                _ => return Outcome::fail("C09.decision_table", format!("{cell}: handler run #{i} (pending={}) is not what the decision table prescribes next", c.pending)),
+            }
+        }
+    } else if let Some(mut v) = check_conn("C09", &cell, &exp, &calls, &cl.received, at_eof) {
         if v.clause == "C09.response_content" || v.clause == "C09.handler_runs" || v.clause == "C09.response_count" {
             v.clause = "C09.decision_table".into();
         }
@@ -269,7 +295,7 @@ pub fn spec() -> PropertySpec {
             Scenario { name: "c09.sampled", property: "C09", func: sampled, runs_quick: 150_000, runs_thorough: 4_000_000, doc: "free S, M; L near the boundaries" },
             Scenario { name: "c09.same_path_sequence", property: "C09", func: same_path_sequence, runs_quick: 60_000, runs_thorough: 1_500_000, doc: "2-4 uploads to one path on one connection, each with its own limit" },
         ],
-        required_probes: vec!["probe.undeclared_over_limit", "probe.declared_exactly_at_limit", "probe.limit_u64_max_undeclared", "probe.two_uploads_same_path_handled"],
+        required_probes: vec!["probe.undeclared_over_limit", "probe.declared_exactly_at_limit", "probe.limit_u64_max_undeclared", "probe.two_uploads_same_path_handled", "probe.eintr_during_upload_sequence"],
         components: components_server(),
         assumptions: vec![
             "'holds in memory' is observed as the kind and size of the body object handed to the handler",
